@@ -45,6 +45,19 @@ add('C16', 'model_checking',
     "path-exhaustive symbolic execution with symbolic lengths (SymInt) + z3 QF_LIA; differential run of the real serializer via the threshold hook",
     'DESIGN.md 3/C16')
 
+add('C01', 'model_checking',
+    "On every skeleton x recipe the real pipeline runs on SYMBOLIC calibration statistics; the executor explores every feasible pattern of parameter (dis)equalities between neighbouring tensors (these decide DQ/Q elimination vs requantize vs grouping), and on each path an independent TFLite-schema oracle decides well-formedness of the rewritten model (indices in range, unique names, one producer, topological order, graph I/O and signature entries exist). A failing path is concretised to float32 statistics and replayed through Quantizer.quantize().",
+    'Assumes: bounded skeleton family (31 single-op kinds + 23 topologies: chains, diamond, multi-consumer tensors, intermediate tensors exported as outputs, producer at index 0, repeated operands, concatenation of a shared tensor, unsupported op between supported ones, shared constants/buffers, two signatures) x recipe family; statistics symbolic; FlatBuffers builder intercepted (captured ModelT is inspected; replays go through the real bytes); LiteRT allocate/invoke is FFI and outside the claim.', 'symbolic execution of the real ParamsGenerator/instruction generator/performer on symbolic statistics (UF back end, z3 QF_UFBV decides path feasibility), bit-precise concretisation (QF_FP) of counterexamples, replay through Quantizer.quantize()', 'DESIGN.md 3/C01')
+add('C02', 'model_checking',
+    "Same exploration; oracle = isomorphism of the rewritten graph with the input graph after deleting inserted QUANTIZE/DEQUANTIZE ops (operators, options, operand wiring to the same original tensor, names, shapes), subgraph I/O count/order/shape, signature keys/arg names, signature tensor == subgraph I/O entry, model I/O float32 unless the recipe covers INPUT/OUTPUT (resolved by the real RecipeManager).",
+    'Assumes: bounded skeleton family (31 single-op kinds + 23 topologies: chains, diamond, multi-consumer tensors, intermediate tensors exported as outputs, producer at index 0, repeated operands, concatenation of a shared tensor, unsupported op between supported ones, shared constants/buffers, two signatures) x recipe family; statistics symbolic; FlatBuffers builder intercepted (captured ModelT is inspected; replays go through the real bytes); LiteRT allocate/invoke is FFI and outside the claim.', 'symbolic execution of the real ParamsGenerator/instruction generator/performer on symbolic statistics (UF back end, z3 QF_UFBV decides path feasibility), bit-precise concretisation (QF_FP) of counterexamples, replay through Quantizer.quantize()', 'DESIGN.md 3/C02')
+add('C03', 'model_checking',
+    "Same exploration; oracle = per operand of every original operator, the dtype/producer demanded by the mode its rule resolves to (resolution by the real RecipeManager, expectation table written from the property text: NOQ untouched + byte-identical constants, WO/FP16 through DEQUANTIZE of an int/fp16 constant, DRQ integer constant weight + float bias, SRQ integer activations of the configured width + int32/int64 bias, non-float operands untouched, inserted Q/DQ convert between their neighbours' dtypes).",
+    'Assumes: bounded skeleton family (31 single-op kinds + 23 topologies: chains, diamond, multi-consumer tensors, intermediate tensors exported as outputs, producer at index 0, repeated operands, concatenation of a shared tensor, unsupported op between supported ones, shared constants/buffers, two signatures) x recipe family; statistics symbolic; FlatBuffers builder intercepted (captured ModelT is inspected; replays go through the real bytes); LiteRT allocate/invoke is FFI and outside the claim.', 'symbolic execution of the real ParamsGenerator/instruction generator/performer on symbolic statistics (UF back end, z3 QF_UFBV decides path feasibility), bit-precise concretisation (QF_FP) of counterexamples, replay through Quantizer.quantize()', 'DESIGN.md 3/C03')
+add('C08', 'model_checking',
+    "Same exploration restricted to the 5 shipped JSON recipes (loaded unchanged) and recipe.dynamic_wi8_afp32(); obligation on every feasible path: no exception escapes parameter generation + graph rewrite. The data-dependent forks (equal vs different parameters between a tensor and its CONCATENATION / fixed-range neighbour) are exactly what one calibration run cannot cover.",
+    'Assumes: bounded skeleton family (31 single-op kinds + 23 topologies: chains, diamond, multi-consumer tensors, intermediate tensors exported as outputs, producer at index 0, repeated operands, concatenation of a shared tensor, unsupported op between supported ones, shared constants/buffers, two signatures) x recipe family; statistics symbolic; FlatBuffers builder intercepted (captured ModelT is inspected; replays go through the real bytes); LiteRT allocate/invoke is FFI and outside the claim.' + " calibrate() itself is not run here (statistics are assumed arbitrary; C09/C10 cover calibration).", 'symbolic execution of the real ParamsGenerator/instruction generator/performer on symbolic statistics (UF back end, z3 QF_UFBV decides path feasibility), bit-precise concretisation (QF_FP) of counterexamples, replay through Quantizer.quantize()', 'DESIGN.md 3/C08')
+
 def write():
   m = {
    'version': 1,
